@@ -9,9 +9,17 @@
    Observed: per host path AuthExt, per backend path AuthExternal (projected to deny marker,
    auth backend name, allowed prefix, a tag standing for the remaining fields), the final
    bind list of the auth proxy, and the authentication rules of the rendered haproxy.cfg
-   (frontend block, then per backend), projected to Model.AuthExt.rule. *)
+   (frontend block, then per backend), projected to Model.AuthExt.rule.
+   Rendered rules (Model/AuthRules.v), both directions:
+   - `uxbacks`/`uxfront`: the Cors and AuthExternal rules PARSED from the real backend sections
+     and from the real frontend, as xrules; they must be `gen_auth_rules` / `gen_frontend_rules`
+     of the configuration (model state, observed Cors of each path, observed number of copied
+     headers and redirect flag per configuration tag `uextras`): a template edit breaks this;
+   - `uprobes`: requests the Go evaluator of the harness (lib/c1819 RunAuth) ran through those
+     parsed rules, with its verdict; `eval_rules` must give the same verdict: the evaluator
+     the oracle relies on is tied to the semantics the theorems are about. *)
 From Coq Require Export ZArith NArith List Bool.
-From HI Require Export Model.AuthExt.
+From HI Require Export Model.AuthExt Model.AuthRules.
 Export ListNotations.
 
 Inductive ucall :=
@@ -63,7 +71,11 @@ Record ucase := {
   ubinds : list (Z * N);                          (* observed AuthProxy.BindList *)
   uhorder : list N;                               (* hosts in template order *)
   ufront : list rule;                             (* rendered, frontend *)
-  urules : list (N * list rule) }.                (* rendered, per backend in call order *)
+  urules : list (N * list rule);                  (* rendered, per backend in call order *)
+  uextras : list (N * extra);                     (* observed, by configuration tag *)
+  uxbacks : list (N * (list (N * cors) * list xrule));  (* observed Cors per path; parsed rules *)
+  uxfront : list xrule;                           (* parsed, frontend *)
+  uprobes : list (N * xreq * bool * verdict) }.   (* backend (0 = frontend), request, services ok?, Go verdict *)
 
 Fixpoint list_eqb {A} (e : A -> A -> bool) (a b : list A) : bool :=
   match a, b with
@@ -94,6 +106,36 @@ Definition act_eqb (x y : act) : bool :=
 Definition rule_eqb (x y : rule) : bool :=
   act_eqb (r_act x) (r_act y) && cond_eqb (r_cond x) (r_cond y) && opt_eqb N.eqb (r_skip x) (r_skip y).
 
+Definition meth_list_eqb := list_eqb meth_eqb.
+
+Definition term_eqb (x y : term) : bool :=
+  match x, y with
+  | TIds a, TIds b => list_eqb N.eqb a b
+  | TKey a, TKey b => N.eqb a b
+  | TMeth n a, TMeth m b => Bool.eqb n m && meth_list_eqb a b
+  | TAuthFailed, TAuthFailed => true
+  | TNotUnder a, TNotUnder b => N.eqb a b
+  | TVarFound, TVarFound => true
+  | _, _ => false
+  end.
+
+Definition xact_eqb (x y : xact) : bool :=
+  match x, y with
+  | XDeny, XDeny | XRedirect, XRedirect | XUseService, XUseService
+  | XSetVar, XSetVar | XSetHeader, XSetHeader => true
+  | XIntercept a, XIntercept b => name_eqb a b
+  | _, _ => false
+  end.
+
+Definition xrule_eqb (x y : xrule) : bool :=
+  xact_eqb (x_act x) (x_act y) && list_eqb term_eqb (x_if x) (x_if y).
+
+Definition verdict_eqb (x y : verdict) : bool :=
+  match x, y with
+  | Served, Served | Denied, Denied | AnsweredByProxy, AnsweredByProxy => true
+  | _, _ => false
+  end.
+
 Definition final (c : ucase) : ustate :=
   fold_left (run_call (ulua c))
     (ucalls c)
@@ -108,7 +150,23 @@ Definition ucase_ok (c : ucase) : bool :=
     (frontend_rules (flat_map (fun h => match assoc h (s_hosts s) with Some ps => ps | None => [] end) (uhorder c)))
     (ufront c) &&
   list_eqb (pair_eqb N.eqb (list_eqb rule_eqb))
-    (map (fun b => (fst b, backend_rules (snd b))) (s_backs s)) (urules c).
+    (map (fun b => (fst b, backend_rules (snd b))) (s_backs s)) (urules c) &&
+  (* the template: generated rules = parsed rules *)
+  list_eqb (pair_eqb N.eqb (list_eqb xrule_eqb))
+    (map (fun x => (fst x, gen_auth_rules
+            {| b_auth := match assoc (fst x) (s_backs s) with Some l => l | None => @nil (N * auth) end;
+               b_cors := fst (snd x); b_extra := uextras c |})) (uxbacks c))
+    (map (fun x => (fst x, snd (snd x))) (uxbacks c)) &&
+  list_eqb xrule_eqb
+    (gen_frontend_rules (uextras c)
+       (flat_map (fun h => match assoc h (s_hosts s) with Some ps => ps | None => [] end) (uhorder c)))
+    (uxfront c) &&
+  (* the Go evaluator: same verdict as eval_rules on the parsed rules *)
+  forallb (fun p : N * xreq * bool * verdict =>
+     let '(b, q, ok, v) := p in
+     let rules := if N.eqb b 0 then uxfront c
+                  else match assoc b (uxbacks c) with Some x => snd x | None => @nil xrule end in
+     verdict_eqb (eval_rules rules q (fun _ => if ok then OOk else ONon2xx) false) v) (uprobes c).
 
 Definition mismatches (cs : list ucase) : list N :=
   map uid (filter (fun c => negb (ucase_ok c)) cs).
